@@ -26,19 +26,19 @@ ALPH = {
     # generic API (generalized + RDF-star)
     "gS": [I_AX, I_BX, B1, QT, L_PLAIN],
     "gP": [I_AY, I_URN, I_EMPTY],
-    "gO": [I_AX, L_PLAIN, L_LANG, L_DT1, L_DT2, L_XSD, B1, QT, I_ANAME0, I_UNI],
+    "gO": [I_AX, L_PLAIN, L_LANG, L_DT1, L_DT2, L_XSD, B1, QT, I_ANAME0, I_UNI, L_EMPTY, B2],
     "gG": [DEF, I_AX, B1, L_DT1],
     # reduced
     "gS3": [I_AX, I_BX, B1],
-    "gO5": [I_AX, L_PLAIN, L_DT1, L_XSD, QT],
+    "gO5": [I_AX, L_PLAIN, L_DT1, L_XSD, QT, L_EMPTY],
     "gO4": [I_AY, L_LANG, L_DT2, I_UNI],
     "gG3": [DEF, I_AX, B1],
     # rdflib (RDF 1.1)
     "rS": [I_AX, I_BX, B1],
     "rP": [I_AY, I_URN],
-    "rO": [I_AX, L_PLAIN, L_LANG, L_DT1, L_DT2, L_XSD, B1, I_UNI],
+    "rO": [I_AX, L_PLAIN, L_LANG, L_DT1, L_DT2, L_XSD, B1, I_UNI, L_EMPTY],
     "rG": [DEF, I_AX, B1],
-    "rO5": [I_AX, L_LANG, L_DT1, L_XSD, B1],
+    "rO5": [I_AX, L_LANG, L_DT1, L_XSD, B1, L_EMPTY],
 }
 
 SPINES = {
